@@ -18,9 +18,8 @@ from sim.peers import ScriptedSampler
 SPACE = {"bounds": [[0.0] * 3, [9.0] * 3], "precision": [1.0] * 3}
 
 
-def ref_dedup(history, script, B, budget):  # noqa: N803
-    """-> (request sizes, final multiset as sorted list of tuples, exhausted?)"""
-    cur = 0
+def ref_dedup(history, script, B, budget, cur=0):  # noqa: N803
+    """-> (request sizes, final multiset as sorted list of tuples, exhausted?, script cursor afterwards)"""
 
     def draw(n):
         nonlocal cur
@@ -44,7 +43,7 @@ def ref_dedup(history, script, B, budget):  # noqa: N803
             samples[i] = x
         if p == budget - 1:
             exhausted = True
-    return requests, sorted(samples), exhausted
+    return requests, sorted(samples), exhausted, cur
 
 
 class C12(Check):
@@ -90,7 +89,26 @@ class C12(Check):
                 script.append(list(rng.choice(script)))          # repeat within batch / of an earlier redraw
             else:
                 script.append(pt())
-        return {"d": d, "B": B, "budget": budget, "hist": hist, "script": script, "lattice": [off, step, side]}
+        case = {"d": d, "B": B, "budget": budget, "hist": hist, "script": script, "lattice": [off, step, side]}
+        u = rng.random()
+        if u < 0.25:
+            # the same sampler object is called again: with another history of the same length (a cache keyed by the
+            # number of rows would go stale), a grown one, or the very same one
+            more = []
+            for _ in range(rng.randint(1, 2)):
+                v = rng.random()
+                prev = more[-1] if more else hist
+                if v < 0.5:
+                    more.append([pt() if rng.random() < 0.7 else list(x) for x in prev])
+                elif v < 0.8:
+                    more.append([list(x) for x in prev] + [pt() for _ in range(rng.randint(1, 3))])
+                else:
+                    more.append([list(x) for x in prev])
+            case["more_hists"] = more
+            script.extend(list(rng.choice(hist + more[-1] + script)) if rng.random() < 0.5 else pt() for _ in range(L * len(more)))
+        if rng.random() < 0.2:
+            case["pickle"] = rng.choice(["before", "between", "both"])   # restart@sampler: the object goes through pickle
+        return case
 
     def run_case(self, case, res: Result):
         d, B, budget = case["d"], case["B"], case["budget"]  # noqa: N806
@@ -98,26 +116,45 @@ class C12(Check):
         # the declared space is exactly the lattice the points live on (small spaces: the history may have more rows
         # than the space has points)
         space = make_space({"bounds": [[off] * d, [off + step * (max(side - 1, 1) + 0.25)] * d], "precision": [step] * d})
-        hist = np.array(case["hist"], dtype=float).reshape((-1, d))
-        losses = np.arange(len(hist), dtype=float)
+        import pickle
         s = ScriptedSampler(B, case["script"], max_deduplication_passes=budget)
-        h0 = hist.copy()
-        out = s.sample(space, hist, losses)
-        want_req, want_ms, exhausted = ref_dedup(case["hist"], case["script"], B, budget)
+        pk = case.get("pickle")
+        if pk in ("before", "both"):
+            s = pickle.loads(pickle.dumps(s))  # noqa: S301
+            res.stats["restart@sampler"] += 1
         site = f"B{min(B, 2)}"
-        if not np.array_equal(h0, hist):
-            res.add("history-modified", site, "sample() changed the history array it was given")
-        if np.asarray(out).shape != (B, d):
-            res.add("shape", site, f"sample() returned shape {np.asarray(out).shape}, first draw had {(B, d)}; case={case}")
-            return None
-        if s.requests != want_req:
-            res.add("request-sizes", site, f"generator asked for {s.requests}, reference retry model says {want_req}; case={case}")
-            return None
-        got_ms = sorted(tuple(r) for r in np.asarray(out).tolist())
-        if got_ms != want_ms:
-            res.add("result-multiset", site, f"returned {got_ms}, reference (first draw with repeats substituted by redraws) {want_ms}; case={case}")
-            return None
-        return (B, d, budget, tuple(want_req), exhausted)
+        cur = 0
+        key = None
+        hists = [case["hist"]] + list(case.get("more_hists", []))
+        for call, hl in enumerate(hists):
+            if call and pk in ("between", "both"):
+                s = pickle.loads(pickle.dumps(s))  # noqa: S301
+                res.stats["restart@sampler"] += 1
+            hist = np.array(hl, dtype=float).reshape((-1, d))
+            losses = np.arange(len(hist), dtype=float)
+            h0 = hist.copy()
+            n_req = len(s.requests)
+            out = s.sample(space, hist, losses)
+            got_req = s.requests[n_req:]
+            want_req, want_ms, exhausted, cur = ref_dedup(hl, case["script"], B, budget, cur)
+            where = "" if len(hists) == 1 else f" (call {call + 1} of {len(hists)} on the same sampler object)"
+            if not np.array_equal(h0, hist):
+                res.add("history-modified", site, "sample() changed the history array it was given" + where)
+            if np.asarray(out).shape != (B, d):
+                res.add("shape", site, f"sample() returned shape {np.asarray(out).shape}, first draw had {(B, d)}{where}; case={case}")
+                return None
+            if got_req != want_req:
+                res.add("request-sizes", site, f"generator asked for {got_req}, reference retry model says {want_req}{where}; case={case}")
+                return None
+            got_ms = sorted(tuple(r) for r in np.asarray(out).tolist())
+            if got_ms != want_ms:
+                res.add("result-multiset", site, f"returned {got_ms}, reference (first draw with repeats substituted by redraws) {want_ms}{where}; case={case}")
+                return None
+            if call:
+                res.stats["probe:second-call-same-object"] += 1
+            if key is None or len(want_req) > len(key[3]):
+                key = (B, d, budget, tuple(want_req), exhausted)
+        return key
 
     def run(self, scn):
         res = Result()
@@ -151,6 +188,21 @@ class C12(Check):
         for i in range(len(case["hist"])):
             c = copy.deepcopy(scn)
             del c["case"]["hist"][i]
+            yield c
+        if case.get("more_hists"):
+            c = copy.deepcopy(scn)
+            c["case"]["more_hists"].pop()
+            if not c["case"]["more_hists"]:
+                del c["case"]["more_hists"]
+            yield c
+            c = copy.deepcopy(scn)
+            c["case"]["hist"] = c["case"]["more_hists"].pop(0)
+            if not c["case"]["more_hists"]:
+                del c["case"]["more_hists"]
+            yield c
+        if case.get("pickle"):
+            c = copy.deepcopy(scn)
+            del c["case"]["pickle"]
             yield c
         if case["budget"] > 0:
             c = copy.deepcopy(scn)
